@@ -239,6 +239,17 @@ def features(b):
     return out
 
 
+def lonely_bad(b):
+    bad = [i + 1 for i, x in enumerate(b.get("bad") or []) if x]
+    if not bad:
+        return False
+    sb = bad[0]
+    called = [st["s"] for st in b["steps"] if st["a"] == "Call"]
+    exp = b.get("exp") or []
+    return (sb in called and sb <= len(exp) and exp[sb - 1].get("err") == "encode"
+            and not any(t != sb and b["key"][t - 1] == b["key"][sb - 1] for t in called))
+
+
 def select(beh, cap, rng):
     """Lazy-greedy pattern cover (3/4 of the budget), then the highest scores."""
     import heapq
@@ -565,6 +576,9 @@ def _run(ctx):
     for part, k in strata:
         # the narrow window first: a Subscribe arriving while a connection of its key is between "closed" and "left the pool"
         must = [b for b in part if b.get("hold") and any("shutting-down" in t for t in tokens(b))]
+        # ... and: the un-encodable request is the only subscription its connection ever had (the failed write must
+        # still let the connection close)
+        must += [b for b in part if lonely_bad(b)]
         rng.shuffle(must)
         must = must[:k // 2]
         if must:
